@@ -19,7 +19,7 @@ DangerousMods == {"os", "posix", "nt", "subprocess", "sys", "socket", "shutil", 
                   "os.path", "urllib.request", "urllib.parse", "dill._dill", "torch.hub.x", "code.x"}
 BenignStdMods == {"collections", "datetime", "fractions", "decimal", "copyreg", "_codecs", "array",
                   "uuid", "pathlib", "functools", "string", "types", "enum", "re", "operator", "time", "itertools",
-                  "marshal", "_io", "io", "importlib", "gzip"}
+                  "marshal", "_io", "io", "importlib", "gzip", "glob", "shlex"}
 NonStdMods    == {"verif_sink", "verif_nat", "numpy", "M1", "M2", "sklearn.tree", "not_a_real_module",
                   "copy_reg", "pkg.sub", "torch", "torch.storage", "torch.serialization", "torch.jit", "operator.impl",
                   "numpy.testing._private.utils", "numpy.testing._private.utils.x", "numpy.core.multiarray",
@@ -37,6 +37,10 @@ Evalish == {"eval", "exec", "compile", "open"}
 IsEvalish(m, n) == \/ ModCat(m) = "builtins" /\ n \in Evalish
                    \/ m \in {"io", "_io"} /\ n = "open"
 
+\* qualified names of the vocabulary (protocol 4 names an object by a dotted path followed from the module by attribute
+\* access): such a callee is COMPUTED from the imported object - `glob` + `os.system` is os.system reached through glob
+Dotted == {"os.system", "os.getpid", "OrderedDict.fromkeys", "date.today"}
+
 \* floor contributed by one event of the reference machine (callee is a canonical term)
 FloorOf(e) ==
   IF e.e = "import" THEN
@@ -46,7 +50,9 @@ FloorOf(e) ==
        (IF e.f.k = "g"
         THEN (IF IsEvalish(e.f.m, e.f.n) THEN OVERTLY_MALICIOUS
               ELSE IF ModCat(e.f.m) = "builtins" THEN LIKELY_UNSAFE
-              ELSE IF ModCat(e.f.m) = "nonstd" THEN LIKELY_UNSAFE ELSE LIKELY_SAFE)
+              ELSE IF ModCat(e.f.m) = "nonstd" THEN LIKELY_UNSAFE
+              ELSE IF e.f.n \in Dotted THEN LIKELY_UNSAFE                  \* the callee is itself computed
+              ELSE LIKELY_SAFE)
         ELSE IF e.f.k \in {"obj", "pers"} THEN LIKELY_UNSAFE       \* the callee is itself computed
         ELSE LIKELY_SAFE)
   ELSE LIKELY_SAFE
